@@ -84,6 +84,31 @@ def gen_poly(rng):
     return case
 
 
+def gen_poly_iavar(rng):
+    """a variable whose INITIAL VALUE is computed from a scanned parameter (x(0) = c * p), read by a rate; the state the
+    elasticities are taken at is the model's own initial state (`variables=None`) in most cases: it has to be the
+    state BEFORE any perturbation, for every scanned parameter"""
+    content = H9.gen_content(rng, rng.random() < 0.3)
+    plain_p = [k for k, v in content["pars"] if "v" in v]
+    p = rng.choice(plain_p)
+    vnames = [k for k, _ in content["vars"]]
+    xi = f"x{len(vnames)}i"
+    args = [p] + ([rng.choice(plain_p)] if rng.random() < 0.4 else [])
+    content["vars"].append([xi, {"ia": {"args": args, "e": _prod([["c", rng.choice(["1", "2", "1/2", "3/2"])]] + [["a", i] for i in range(len(args))])}}])
+    rargs = [xi] + [rng.choice(vnames + plain_p) for _ in range(rng.randint(0, 1))]
+    content["rxns"].append(["riv", {"args": rargs, "e": _prod([["c", rng.choice(["1/2", "1/4", "1"])]] + [["a", i] for i in range(len(rargs))]
+                                                              + ([["a", 0]] if rng.random() < 0.5 else [])),
+                                    "st": [[rng.choice(vnames), {"c": rng.choice(["1", "-1"])}]]}])
+    what = "par" if rng.random() < 0.8 else "var"
+    others = [k for k in plain_p if k != p]
+    to_scan = [p] + rng.sample(others, rng.randint(0, len(others)))
+    rng.shuffle(to_scan)
+    return {"stratum": "poly", "content": content, "what": what,
+            "to_scan": (to_scan if what == "par" else None),
+            "vars": None if rng.random() < 0.8 else [[k, rng.choice(["1", "2", "1/2", "3"])] for k, _ in content["vars"]],
+            "normalized": rng.random() < 0.5, "d": rng.choice(DISP), "t": rng.choice(["0", "0", "1"]), "iavar": True}
+
+
 def gen_chain(rng):
     n = rng.randint(1, 3)
     ks = [rng.choice(["1", "2", "1/2", "3/2"]) for _ in range(n + 1)]
@@ -139,6 +164,99 @@ def gen_mc(rng):
     if rng.random() < 0.5:
         base["normalized"] = False  # unscaled coefficients depend on the state
     return base
+
+
+def _needs(content, name):
+    """does some derived quantity / reaction / surrogate read `name` directly?"""
+    return any(name in v["args"] for grp in ("derived", "rxns", "surs") for _, v in content.get(grp, []))
+
+
+def gen_raise(rng):
+    """RAISING paths of the routines that write the model: is the model put back when an exception escapes?
+    keyerr: custom variables that lack a variable some rate needs -> get_fluxes raises KeyError after the parameter
+            was perturbed (parameter_elasticities), or before anything happens (variable_elasticities);
+    unknown: custom variables naming an unknown variable -> update_variables raises before anything is written;
+    integ:  the toy integrator raises ValueError in the upper / lower / normalisation steady-state run of the
+            j-th scanned parameter (response_coefficients, sequential and pool)."""
+    r = rng.random()
+    if r < 0.45:
+        for _ in range(50):
+            case = gen_poly(rng)
+            vnames = [k for k, _ in case["content"]["vars"]]
+            used = [k for k in vnames if _needs(case["content"], k)]
+            if used:
+                break
+        else:
+            return gen_poly(rng)
+        missing = rng.choice(used)
+        keep = [k for k in vnames if k != missing and rng.random() < 0.8]
+        case["vars"] = [[k, rng.choice(["1", "2", "1/2", "3"])] for k in keep]
+        if case["what"] == "var" and case["to_scan"] is not None:
+            case["to_scan"] = [k for k in case["to_scan"] if k != missing] or None
+        case["raise"] = "keyerr"
+        if rng.random() < 0.3:
+            _add_mc_table(rng, case)
+        return case
+    case = gen_euler(rng)
+    vnames = [k for k, _ in case["content"]["vars"]]
+    if r < 0.6:
+        case["vars"] = [[k, rng.choice(["1", "2"])] for k in rng.sample(vnames, rng.randint(0, len(vnames)))]
+        case["vars"].insert(rng.randint(0, len(case["vars"])), ["nosuchvar", "1"])
+        case["raise"] = "unknown"
+        if rng.random() < 0.3:
+            _add_mc_table(rng, case)
+        return case
+    j = rng.randrange(len(case["to_scan"]))
+    where = rng.choice(["up", "lo", "norm"] if case["normalized"] else ["up", "lo"])
+    case["raise"] = "integ"
+    case["raise_at"] = [j, where]
+    try:
+        case["cfg"]["raise"] = [fexpr.rat_str(_run_keys(case)[j][where])]
+    except (fexpr.Inexact, ZeroDivisionError):
+        case["cfg"]["raise"] = []
+    return case
+
+
+def _add_mc_table(rng, case):
+    """the same raising call through the Monte-Carlo wrapper: it raises in a pool process, on a copy"""
+    c = case["content"]
+    plain_p = [k for k, v in c["pars"] if "v" in v]
+    cols = rng.sample(plain_p, rng.randint(1, min(2, len(plain_p))))
+    n = rng.randint(1, 3)
+    case["mc"] = {"cols": cols, "rows": [[i, [rng.choice(["1", "2", "1/2", "3/2"]) for _ in cols]] for i in range(n)]}
+    if case["what"] == "par" and case["to_scan"] is None:
+        case["to_scan"] = plain_p
+
+
+def _run_keys(case):
+    """per scanned parameter the toy integrator's key (sum(y0) + 3*sum(rhs(0, y0)), exact) of the three
+    steady-state runs: parameter up, down, reset — on a model DECLARED with those values"""
+    c = case["content"]
+    d = Fraction(case["d"])
+    out = []
+    for p in case["to_scan"]:
+        old = Fraction(dict(c["pars"])[p]["v"])
+        keys = {}
+        for where, val in (("up", old * (1 + d)), ("lo", old * (1 - d)), ("norm", old)):
+            sp = C.Spec(L.with_values(L.with_values(c, case["vars"] or []), [(p, val)]))
+            iv = sp.init_values()
+            rhs = sp.rhs(None, 0)
+            keys[where] = sum((iv[k] for k in sp.vars), Fraction(0)) + 3 * sum(rhs.values(), Fraction(0))
+        out.append(keys)
+    return out
+
+
+def oracle_raise(case):
+    """what the property says about a raising call: the exception escapes, the model is as it was"""
+    st = H9._state(L.build_model(case["content"]))
+    if case["raise"] in ("keyerr", "unknown"):
+        return {"err": ["KeyError"], "before": st, "after": st}
+    raise_keys = {Fraction(k) for k in case["cfg"].get("raise", [])}
+    for keys in _run_keys(case):
+        for where in (("up", "lo", "norm") if case["normalized"] else ("up", "lo")):
+            if keys[where] in raise_keys:
+                return {"err": ["ValueError"], "before": st, "after": st}
+    return oracle_euler(case)
 
 
 def sample_kv(case, i):
@@ -203,6 +321,8 @@ def run_real_mc(case, mode):
         out["after"] = H9._state(m)
         return out
     except Exception as e:  # noqa: BLE001
+        if case.get("raise"):
+            return {"err": [type(e).__name__], "before": before, "after": _state_after_raise(m)}
         return {"err": [type(e).__name__]}
 
 
@@ -235,7 +355,19 @@ def run_real(case, mode):
         out["after"] = H9._state(m)
         return out
     except Exception as e:  # noqa: BLE001
+        if case.get("raise"):
+            return {"err": [type(e).__name__], "before": before, "after": _state_after_raise(m)}
         return {"err": [type(e).__name__]}
+
+
+def _state_after_raise(m):
+    """the model after an exception escaped; a model left half-perturbed may not even answer its getters"""
+    try:
+        return H9._state(m)
+    except Exception as e:  # noqa: BLE001
+        return {"unreadable": type(e).__name__,
+                "pars": sorted([k, repr(getattr(v, "value", v))] for k, v in m.get_raw_parameters().items()),
+                "init": sorted([k, repr(getattr(v, "initial_value", v))] for k, v in m.get_raw_variables().items())}
 
 
 # --------------------------------------------------------------------------- oracles
@@ -385,6 +517,8 @@ def run_oracle_mc(case):
 def run_oracle(case):
     if case.get("mc"):
         try:
+            if case.get("raise"):
+                return oracle_raise(case)  # the exception of the first sample escapes; the caller's model is untouched
             return run_oracle_mc(case)
         except fexpr.Inexact:
             return {"skip": "inexact"}
@@ -393,6 +527,8 @@ def run_oracle(case):
         except Exception as e:  # noqa: BLE001
             return {"err": [type(e).__name__]}
     try:
+        if case.get("raise"):
+            return oracle_raise(case)
         return {"powerlaw": oracle_powerlaw, "poly": oracle_poly, "chain": oracle_chain, "euler": oracle_euler}[case["stratum"]](case)
     except fexpr.Inexact:
         return {"skip": "inexact"}
@@ -431,7 +567,10 @@ def model_requests_mc(case):
 def canon_model_mc(answers, S):
     """driver answers (one per sample) -> observation shaped like S"""
     if any("err" in a for a in answers):
-        return {"err": [next(a for a in answers if "err" in a)["err"][0]]}
+        bad = next(a for a in answers if "err" in a)
+        if "err" in S and "before" in S and "caller" in bad:
+            return canon_model(bad, S, S["before"])
+        return {"err": [bad["err"][0]]}
     samples, after = [], S["before"]
     for (label, tmpl), a in zip(S["samples"], answers):
         cm = canon_model(a, tmpl, S["before"])
@@ -441,9 +580,18 @@ def canon_model_mc(answers, S):
 
 
 def canon_model(resp, template, before):
+    def st(j):
+        return sorted([k, L.qf(v)] for k, v in j["ok"]) if "ok" in j else {"err": j["err"][0]}
+
     if "err" in resp:
+        if "err" in template and "before" in template and "caller" in resp:
+            return {"err": [resp["err"][0]], "before": before,
+                    "after": {"pars": st(resp["caller"]["pars"]), "init": st(resp["caller"]["init"])}}
         return {"err": [resp["err"][0]]}
     ok = resp["ok"]
+    if "cols" not in template:  # the property expects an exception here, the model returned a table
+        return {"returned": [p for p, _ in ok["cols"]], "before": before,
+                "after": {"pars": st(ok["caller"]["pars"]), "init": st(ok["caller"]["init"])}}
     by = {p: dict(col) for p, col in ok["cols"]}
 
     def pick(tcols):
@@ -452,9 +600,6 @@ def canon_model(resp, template, before):
             src = by.get(p, {})
             out.append([p, [[r, (None if src.get(r) is None else L.qf(src[r])) if r in src else "missing"] for r, _ in tcol]])
         return out
-
-    def st(j):
-        return sorted([k, L.qf(v)] for k, v in j["ok"]) if "ok" in j else {"err": j["err"][0]}
 
     out = {"cols": pick(template["cols"])}
     if "fcols" in template:
@@ -529,12 +674,16 @@ def classify(case, mode, R, S):
 
 def shape(case):
     c = case["content"]
+    if case.get("raise"):
+        at = "-".join(str(x) for x in case.get("raise_at", []))
+        return (f"raise-{'mc-' if case.get('mc') else ''}{case['raise']}{'-' + at if at else ''}-{case['what']}-"
+                f"{'norm' if case['normalized'] else 'raw'}-{'y' if case['vars'] else 'init'}")
     if case.get("mc"):
         vs = {k for k, _ in c["vars"]}
         return (f"mc-{case['stratum']}-{case['what']}-samples{len(case['mc']['rows'])}-"
                 f"{'samplevar' if any(col in vs for col in case['mc']['cols']) else 'samplepar'}-"
                 f"{'norm' if case['normalized'] else 'raw'}-{'y' if case['vars'] else 'init'}")
-    return (f"{case['stratum']}-{case['what']}-v{len(c['vars'])}p{len(c['pars'])}r{len(c['rxns'])}"
+    return (f"{case['stratum']}{'-iavar' if case.get('iavar') else ''}-{case['what']}-v{len(c['vars'])}p{len(c['pars'])}r{len(c['rxns'])}"
             f"-{'norm' if case['normalized'] else 'raw'}-{'y' if case['vars'] else 'init'}-d{case['d']}")
 
 
@@ -553,7 +702,10 @@ def judge_case(ctx, case, modes, S, Rs, Ms):
     if "skip" in S:
         ctx.hist["skipped_" + S["skip"]] = ctx.hist.get("skipped_" + S["skip"], 0) + 1
         return
-    ctx.count(case, shape(case), "cols" in S or "samples" in S)
+    ctx.count(case, shape(case), "cols" in S or "samples" in S or ("err" in S and "before" in S))
+    if case.get("raise"):
+        k = "raise-expected-" + ("exception" if "err" in S else "table")
+        ctx.hist[k] = ctx.hist.get(k, 0) + 1
     tol = tol_of(case)
     Sj = L.jnum(S)
     for mode, R, M in zip(modes, Rs, Ms):
@@ -581,13 +733,13 @@ def evaluate(ctx, jobs):
         if not ctx.driver_ok or case["stratum"] == "chain":
             continue
         if case.get("mc"):
-            if "samples" in S:
+            if "samples" in S or (case.get("raise") and "err" in S and "before" in S):
                 rq = model_requests_mc(case)
                 for mi in range(len(modes)):
                     where.append((ci, mi, len(reqs), len(rq)))
                 reqs += rq
             continue
-        if "cols" not in S:
+        if "cols" not in S and not (case.get("raise") and "err" in S and "before" in S):
             continue
         for mi, mode in enumerate(modes):
             where.append((ci, mi, len(reqs), 1))
@@ -608,8 +760,21 @@ def corpus():
     content = {"vars": [["x", {"v": "1"}]], "pars": [["k0", {"v": "1"}], ["k1", {"v": "1/2"}]], "derived": [], "surs": [],
                "rxns": [["v0", {"args": ["k0"], "e": ["a", 0], "st": [["x", {"c": "1"}]]}],
                         ["v1", {"args": ["k1", "x"], "e": ["*", ["a", 0], ["a", 1]], "st": [["x", {"c": "-1"}]]}]]}
-    return [{"stratum": "euler", "content": content, "what": "resp", "cfg": {"nss": 3, "h": "1/4", "fail": []},
-             "to_scan": ["k0", "k1"], "vars": [["x", "3"]], "normalized": n, "d": "1/1024"} for n in (False, True)]
+    out = [{"stratum": "euler", "content": content, "what": "resp", "cfg": {"nss": 3, "h": "1/4", "fail": []},
+            "to_scan": ["k0", "k1"], "vars": [["x", "3"]], "normalized": n, "d": "1/1024"} for n in (False, True)]
+    # hand-confirmed witnesses of F-C18-3 / F-C18-4 (raising paths): two pools, custom variables without `y`
+    two = {"vars": [["x", {"v": "1"}], ["y", {"v": "2"}]], "pars": [["k", {"v": "1"}], ["k2", {"v": "2"}]], "derived": [], "surs": [],
+           "rxns": [["v", {"args": ["k", "x"], "e": ["*", ["a", 0], ["a", 1]], "st": [["x", {"c": "-1"}]]}],
+                    ["v2", {"args": ["k2", "y"], "e": ["*", ["a", 0], ["a", 1]], "st": [["y", {"c": "-1"}]]}]]}
+    out.append({"stratum": "poly", "content": two, "what": "par", "to_scan": ["k2", "k"], "vars": [["x", "1"]],
+                "normalized": True, "d": "1/1024", "t": "0", "raise": "keyerr"})
+    for j, where in ((0, "up"), (1, "lo"), (1, "norm")):
+        c = {"stratum": "euler", "content": content, "what": "resp", "cfg": {"nss": 3, "h": "1/4", "fail": []},
+             "to_scan": ["k0", "k1"], "vars": [["x", "3"]], "normalized": True, "d": "1/1024", "raise": "integ",
+             "raise_at": [j, where]}
+        c["cfg"]["raise"] = [fexpr.rat_str(_run_keys(c)[j][where])]
+        out.append(c)
+    return out
 
 
 def setup(ctx):
@@ -619,8 +784,11 @@ def setup(ctx):
         "dyadic positive values, custom or initial state, scaled/unscaled, displacement 2^-10 / 2^-13 (chain: 2^-5 / 2^-6); poly: random "
         "polynomial models incl. initial assignments and derived; chain: linear chains of 1-3 pools with the shipped "
         "integrator; euler: random polynomial models with the toy integrator, custom variables (full / partial / none); "
-        "response coefficients run sequentially and with 1/2/16 pool processes; distinct = distinct case; non-trivial = "
-        "the oracle produced a table"
+        "response coefficients run sequentially and with 1/2/16 pool processes; raise: calls that END WITH AN EXCEPTION "
+        "(custom variables lacking a variable a rate needs / naming an unknown variable; the toy integrator raising in the "
+        "upper, lower or normalisation run of the j-th scanned parameter) - observed: exception class and the model "
+        "afterwards; scaled: the closed forms of Props/C18 through the driver vs the real routine on v = k x^n, n = 0..5; "
+        "distinct = distinct case; non-trivial = the oracle produced a table or an expected exception"
     )
     ctx.assumptions += [
         "steady states come from the integrator (C15); the chain stratum compares with analytic sensitivities at 1e-4",
@@ -649,14 +817,47 @@ def probe_ia_parameter(ctx):
         ctx.add_drift(case, R, M, "initial-assignment parameter probe")
 
 
+def probe_scaled(ctx):
+    """the closed forms of Props/C18 (`scaledCD`, `prodUp`, and `coef` on the three flux values of v = A x^n), run by
+    the driver, against the REAL variable_elasticities on the one-reaction model v = k * x^n, and against the
+    bound `n <= s <= n * prodUp d n` the theorem states"""
+    from mxlpy import mca
+
+    if not ctx.driver_ok:
+        return
+    cases = [(d, n, A, x) for d in DISP + ["1/32", "-1/1024"] for n in range(0, 6) for A, x in (("1", "1"), ("3/2", "5/4"))]
+    answers = driver.call_batch([{"op": "c18", "what": "scaled", "d": d, "n": n, "A": A, "x": x} for d, n, A, x in cases])
+    for (d, n, A, x), a in zip(cases, answers):
+        case = {"stratum": "scaled", "d": d, "n": n, "A": A, "x": x}
+        ctx.count(case, f"scaled-n{n}", True)
+        if "scaled" not in a:
+            ctx.violation(case, a, "driver: scaled closed form")
+            continue
+        fd = Fraction(d)
+        closed = ((1 + fd) ** n - (1 - fd) ** n) / (2 * fd)
+        sc, pu = Fraction(a["scaled"]), Fraction(a["prodUp"])
+        content = {"vars": [["x", {"v": x}]], "pars": [["k", {"v": A}]], "derived": [], "surs": [],
+                   "rxns": [["v", {"args": ["k"] + ["x"] * n, "e": _prod([["a", i] for i in range(n + 1)]),
+                             "st": [["x", {"c": "-1"}]]}]]}
+        real = float(mca.variable_elasticities(L.build_model(content), normalized=True, displacement=L.fl(d)).loc["v", "x"])
+        R = {"entry": closed if L.close(real, float(closed), TOL) else real, "bound": n <= closed <= n * pu}
+        S = {"entry": sc, "bound": True}
+        M = {"entry": None if a["coef"] is None else Fraction(a["coef"]), "bound": n <= sc <= n * pu}
+        ctx.judge(case, L.jnum({k: (str(v) if isinstance(v, Fraction) else v) for k, v in R.items()}),
+                  L.jnum({k: (str(v) if isinstance(v, Fraction) else v) for k, v in S.items()}),
+                  L.jnum({k: (str(v) if isinstance(v, Fraction) else v) for k, v in M.items()}), what="scaled closed form")
+
+
 def run(ctx):
     setup(ctx)
     probe_ia_parameter(ctx)
+    probe_scaled(ctx)
     rng = ctx.rng
     thorough = ctx.tier == "thorough" or not ctx.proof_ok
     cases = list(corpus())
     n = ctx.n(300, 3000)
-    gens = [gen_powerlaw, gen_powerlaw, gen_mc, gen_poly, gen_poly, gen_euler, gen_mc, gen_chain, gen_powerlaw, gen_euler]
+    gens = [gen_powerlaw, gen_powerlaw, gen_mc, gen_poly, gen_raise, gen_euler, gen_mc, gen_chain, gen_powerlaw, gen_euler,
+            gen_poly_iavar, gen_raise]
     while len(cases) < n:
         cases.append(gens[len(cases) % len(gens)](rng))
     batch = 80
